@@ -46,6 +46,9 @@ SCEN = {
     'PushS': lambda inv=(): sc('MC_PushS', 4, 5, inv),
     'PushC': lambda inv=(): sc('MC_PushC', 5, 6, inv),
     'FrameS': lambda inv=(): sc('MC_FrameS', 4, 5, inv),
+    'UpgPair': lambda inv=(): sc('MC_UpgPair', 6, 7, inv),
+    'UpgS': lambda inv=(): sc('MC_UpgS', 4, 5, inv),
+    'UpgC': lambda inv=(): sc('MC_UpgC', 4, 5, inv),
 }
 
 
@@ -103,6 +106,8 @@ PROPS = {
                      (['z.streams', 'z.closed', 'z.ow', 'z.iw'], S('call:prio', 'frame:PRIO'))]},
     'C24': {'scenarios': scen('MiscC MiscS', ['P_C24_AltSvcRules']),
             'lens': [(['r', 'o', 'e'], S('call:alt', 'frame:ALT')), (['z.streams.auth'], ANY)]},
+    'C25': {'scenarios': scen('UpgPair UpgS UpgC', ['P_C25_UpgradeHandsOver', 'RaisingCallEmitsNothing']),
+            'lens': [(ALL_PUBLIC + STATE_FSM + ['z.rs', 'z.ls', 'z.hiIn', 'z.hiOut', 'z.streams.ow', 'z.ow'], ANY)]},
     'C26': {'scenarios': scen('MiscC MiscS CloseS', ['P_C26_PingAnsweredOnce']),
             'lens': [(['r', 'o', 'e'], S('call:ping', 'frame:PING'))]},
     'C27': {'scenarios': scen('CloseS MiscS MiscC LifeS HdrInS PushC', ['P_C27_ClosedMemoryBounded', 'P_C27_NoStateForNonOpeningFrames']),
@@ -153,6 +158,7 @@ TV = {
     'C22': tvs('s c pair', 'push', n=(20, 600)),
     'C23': tvs('s c pair', 'misc'),
     'C24': tvs('s c pair', 'misc'),
+    'C25': tvs('s c pair', 'upgrade', n=(16, 400)),
     'C26': tvs('s c pair', 'misc'),
     'C27': tvs('s c', 'life push', max_closed=[2, 4], chaos=0.15),
     'C28': tvs('s c pair', 'mix', hashseeds=True),
@@ -163,15 +169,16 @@ TV = {
 FORMULAS = {pid: sorted({i for sc_ in PROPS[pid]['scenarios'] for i in sc_.get('invariants', [])}) for pid in PROPS}
 FORMULAS['C10'] = FORMULAS['C10'] + ['P_C10_InboundWithinLocalLimit']
 
-NOT_APPLICABLE = {
-    'C25': 'the h2c upgrade path (initiate_upgrade_connection, HTTP2-Settings) is not modelled in spec/H2.tla yet; the '
-           'harness driver has the call but no scenario model predicts it, so nothing is claimed',
-}
+NOT_APPLICABLE = {}
 
 
 # deviations whose defect is only in the state left behind: result, frames and events of the marking step itself are
 # what the properties demand (the call raises and emits nothing), so they are still judged at that step
 STATE_ONLY = {'misuse_closes_stream', 'misuse_closes_connection', 'failed_send_partial_state', 'update_settings_partial'}
+
+
+# deviations whose recorded defect is a dependence on chunk boundaries
+CHUNK_DEPENDENT = {'frame_size_limit_snapshot'}
 
 
 def tainted(d, alive=None):
@@ -182,6 +189,10 @@ def tainted(d, alive=None):
     alive = alive or set()
     before = set(d.get('dev_before') or [])
     new = set(d.get('dev', [])) - before
+    if d.get('chunked') and (before | new) & CHUNK_DEPENDENT:
+        # the finding itself is that the outcome depends on how the bytes are split: when the input is fed in pieces the
+        # as-built model (stated on whole receive_data() calls) does not predict the step
+        return True
     if before - alive:
         return True
     if not new - alive:
